@@ -67,6 +67,9 @@ def run(ctx):
     ctx.floor("C02.R12", "learner-copy obligations", len(sub.obs), 4)
     # the repair in front of the restore must take a file for gzip exactly when the writer and the reader do: otherwise it 'repairs' a plain log as gzip and truncates it to nothing
     from . import c12
+    ctx.rule("C02.R15", "no scheduled task is lost between MakeTasks and the workers: ChunkTasks re-groups the tasks only (batching partitions every chunk, nothing ends _chunks before its yield loops) -- "
+                        "a resumed run, whose params records are all in the file already, has tasks of one kind only")
+    chunker_partitions(ctx, "C02.R15")
     ctx.rule("C02.R13", "one gzip predicate: DiskSink.__enter__, DiskSource.read and the torn-tail repair decide 'this is a .gz file' by the same test of the path")
     c12.gz_predicate(ctx, "C02.R13")
     # ids are handed out by order of first appearance (MakeTasks): the resuming PROCESS must see the triples in the same order as the interrupted one
@@ -471,6 +474,11 @@ def chunker_partitions(ctx, rule):
     ch = ctx.fn(PROC, "ChunkTasks._chunks")
     calls = [c for c in ast.walk(ch) if isinstance(c, ast.Call) and call_tail(c) == "_max_chunker"]
     ctx.ob(rule, PROC, "ChunkTasks._chunks", calls[0] if calls else ch, "every chunk goes through the batcher", bool(calls), stmt="chunks batched")
+    # nothing ends the generator before its yield loops: a resumed run often has tasks of one kind only (every params record is already in the file)
+    exits = [x for x in ast.walk(ch) if isinstance(x, (ast.Return, ast.Raise)) and enclosing_function(x) is ch] if False else [x for x in walk_shallow(ch) if isinstance(x, (ast.Return, ast.Raise))]
+    loops = [l_ for l_ in ch.body if isinstance(l_, ast.For) and any(isinstance(y, (ast.Yield, ast.YieldFrom)) for y in ast.walk(l_))]
+    ctx.ob(rule, PROC, "ChunkTasks._chunks", (exits or [ch])[0], "the three groups of tasks (without environment, not chunked, chunked) are each yielded unconditionally: no return / raise ends _chunks early", not exits and len(loops) >= 3,
+           detail={"early exits": [unparse(e) for e in exits], "top-level yield loops": len(loops)}, stmt="_chunks has no early exit")
 
 
 def r8_nothing_dropped(ctx):
@@ -910,6 +918,7 @@ CONTROLS = [
     ("the torn tail is left in place", EXP, M.delete_stmt("Experiment.run", M.text_has("_drop_partial_record(result_file)")), "C02.R6"),
     ("duplicate triples removed through a set", EXP, M.insert_before("Experiment._parse_init_args", lambda st: isinstance(st, ast.Return) and "triples" in ast.unparse(st), "triples = list(set(map(tuple, triples)))"), "C02.R14"),
     ("writer and reader take only a trailing .gz for gzip", "coba/pipes/sinks.py", M.replace_expr("DiskSink.__enter__", "'.gz' in self._filename", "self._filename.endswith('.gz')"), "C02.R13"),
+    ("the chunker returns when one kind of task is missing", "coba/experiments/process.py", M.insert_before("ChunkTasks._chunks", lambda st: isinstance(st, ast.For), "if not tasks_sans_env or not tasks_with_env: return"), "C02.R15"),
     ("one copy of a learner per chunk", "coba/experiments/process.py", M.replace_stmt("ProcessTasks.filter", M.text_has("lrn = deepcopy(lrn)"), "lrn = _copies.setdefault(id(lrn), deepcopy(lrn))"), "C02.R12"),
     ("plain repair: 'not found yet' is None but a block without line end stores 0", EXP, M.chain(M.replace_expr("_drop_partial_record", "pos > 0 and (not keep)", "pos > 0 and keep is None"), M.replace_stmt("_drop_partial_record", M.text_has("pos = size"), "pos, keep = size, None")), "C02.R6"),
     ("plain repair: kept offset counted from the end of the file", EXP, M.replace_expr("_drop_partial_record", "start + end + 1 if end >= 0 else 0", "size - (pos - start - end - 1) if end >= 0 else 0"), "C02.R6"),
